@@ -274,8 +274,6 @@ def data_state(rng, shape=None, freqs=None, fz0=None):
     t, r, c = shape if shape else rng.choice(DATA_SHAPES)
     f = rng.randint(0, 3) if freqs is None else freqs
     z = rng.randint(0, 1) if fz0 is None else fz0
-    if r * c == 0:
-        f = 0               # zero-sized matrices with frequencies trip UBSan in vnadata_resize (memset(NULL, 0, 0)): C03
     if f == 0 or max(r, c) == 0:
         z = 0
     return {"type": t, "rows": r, "cols": c, "freqs": f, "fz0": z, "seed": rng.randint(1, 10 ** 6)}
@@ -463,8 +461,20 @@ NULL_FUNCS = [("resize", "m1", [1, 1, 1, 1]), ("set_type", "m1", [0]), ("init", 
               ("get_fprecision", "m1", []), ("get_filetype", "m1", []), ("get_format", "null", []), ("convert", "m1", [1, 0])]
 
 
+# functions of the vnadata family whose C text has no NULL test in front of the first dereference of the object
+# pointer (filled by checks/C11.py from the translator: info["handles"]).  A NULL object pointer is outside the
+# property's "valid object pointers": their handle=NULL rows are not run by the catalogue (recorded in SKIPPED); the
+# model answers Fault for them and the tie checks that the library indeed does not return.
+NULL_UNCHECKED = set()
+
+
 def null_cases(s):
-    return [Case("data", s, f + "@null", "handle=NULL", a, silent(ret)) for f, ret, a in NULL_FUNCS]
+    out = []
+    for f, ret, a in NULL_FUNCS + [("set_frequency", "m1", [0])]:
+        if f in NULL_UNCHECKED:
+            continue
+        out.append(Case("data", s, f + "@null", "handle=NULL", a, silent(ret)))
+    return out
 
 
 # ----------------------------------------------------------------------------- vnacal_t family
@@ -894,23 +904,13 @@ def tie_data_tuples(ctx):
     if ctx.tier == "quick":
         SKIPPED.append(("tie: object states of type U, Y, G, B (quick tier only)",
                         "sampling: they share every test with T, Z, H, A; the thorough tier runs them"))
-    SKIPPED.append(("tie: 0 x n and n x 0 objects (n > 0), and the 0 x 0 object with frequencies > 0",
-                    "left out of the state space: a zero-sized matrix with frequencies makes vnadata_resize call "
-                    "memset(NULL, 0, 0), which UBSan reports (nonnull attribute); memory safety is property C03's subject"))
-    SKIPPED.append(("tie: set_z0_vector, set_all_z0, set_fz0_vector on the 0 x 0 object",
-                    "memcpy(NULL, ., 0) in the library (UBSan, same remark)"))
     for r in range(4):
         for c in range(4):
             for t in range(0, 11):
                 if vtype_ok(t, r, c):
                     if t in (3, 5, 7, 9) and ctx.tier == "quick":
                         continue        # U, Y, G, B share their checks with T, Z, H, A
-                    if r * c == 0 and (r + c) > 0:
-                        continue        # 0 x n objects: only the empty 0 x 0 object is kept
                     for f in range(4):
-                        if r * c == 0 and f > 0:
-                            continue    # zero-sized matrices with frequencies: memset(NULL, 0, 0) in vnadata_resize
-                                        # is reported by UBSan (nonnull attribute); memory safety is C03's subject
                         for z in (0, 1):
                             if z and (f == 0 or max(r, c) == 0):
                                 continue
@@ -949,8 +949,6 @@ def tie_data_tuples(ctx):
             else:
                 tuples.append((func, []))
         for func, a in tuples:
-            if max(s["rows"], s["cols"]) == 0 and func in ("set_z0_vector", "set_all_z0", "set_fz0_vector"):
-                continue                # memcpy(NULL, ., 0): same remark
             if keep < 1.0 and rng.random() > keep * (1 if len(a) == 3 else 4 if len(a) == 2 or func in ("resize", "init") else 8):
                 continue
             out.append((s, func, a))
@@ -1245,7 +1243,7 @@ def model_tie2(ctx, runner, drv, broken):
     for t in range(0, 11):
         for r in range(0, 4):
             for c in range(0, 4):
-                if not vtype_ok(t, r, c) or (r * c == 0 and r + c > 0):
+                if not vtype_ok(t, r, c):
                     continue
                 sd = {"type": t, "rows": r, "cols": c, "freqs": 1 if r * c > 0 else 0, "fz0": 0, "seed": 26}
                 for nt in range(-1, 12):
@@ -1375,7 +1373,7 @@ def model_tie2(ctx, runner, drv, broken):
     ctx.obligation("tie:new-param-convert", not diffs, "; ".join("%s%s %s: %s" % (d[0].func, d[0].args, d[0].text[:40], d[2]) for d in diffs[:4]))
     seen = set()
     for c, ml, prob in diffs:
-        key = (c.func.replace("@null", ""), prob.split("(")[0][:40])
+        key = (c.func.replace("@null", ""), prob.split("(")[0].split(":")[0][:40])
         if key in seen:
             continue
         seen.add(key)
